@@ -35,9 +35,9 @@ open RV.Gen.C19
 interleaving; in particular integrator and server are never both inside their critical sections -/
 theorem c19_mutual_exclusion (tr : List Ev) (s : State) (h : Exec tr s) (hq : s.racy = false) :
     (s.owner = some .I ↔ (critI s.ipc = true ∧ s.ilock = true)) ∧ (s.owner = some .S ↔ critS s.spc = true) ∧
-    ¬ ((critI s.ipc = true ∧ s.ilock = true) ∧ critS s.spc = true) ∧ s.ub = false := by
+    ¬ ((critI s.ipc = true ∧ s.ilock = true) ∧ critS s.spc = true) ∧ s.ub = false ∧ s.memerr = false := by
   have i := exec_inv h hq
-  refine ⟨i.ownI, i.ownS, ?_, i.noUB⟩
+  refine ⟨i.ownI, i.ownS, ?_, i.noUB, i.noMem⟩
   rintro ⟨a, b⟩
   have := i.ownI.mpr a
   have := i.ownS.mpr b
@@ -143,8 +143,8 @@ theorem c19_serialise_at_boundary_partial (pre post : List Ev) (s0 s : State)
 /-- one step is taken while a request arrives; the server gets the mutex at the integrator's
 unlock and serialises while `reb_check_exit` of the next iteration synchronises and shrinks `dt` -/
 def witnessF18 : List Ev :=
-  [.xStart, .iEnter, .iChkBegin, .iChkEnd true, .iSeeSrv true, .iSeeNC0, .iLock, .iStepBegin, .sReq, .sSetNC,
-   .iStepEnd, .iUnlock, .sLock, .iChkBegin, .sSerBegin, .iChkSync]
+  [.xStart, .iEnter, .iChkBegin, .iChkEnd true, .iSeeSrv true, .iSeeNC0, .iLock, .iSetFlag, .iStepBegin, .sReq, .sSetNC,
+   .iStepEnd, .iUnlock, .iClrFlag, .sLock, .iChkBegin, .sSerBegin, .iChkSync]
 
 /-- the hypothesis of the partial theorem cannot be dropped (finding F18): an execution of
 the protocol as coded in which the server is inside `reb_simulation_save_to_stream` while
@@ -173,9 +173,9 @@ continue once the server is back in `accept`: no reachable state is a deadlock -
 theorem c19_no_deadlock (tr : List Ev) (s : State) (h : Exec tr s) (hq : s.racy = false) :
     ∃ e, (step s e).isSome = true := by
   have i := exec_inv h hq
-  obtain ⟨ipc, spc, owner, nc, sim, snap, served, up, il, rc, ub⟩ := s
-  obtain ⟨h1, h2, h3, h4, h5, h6, h7, h8, h9, h10, h11, h12⟩ := i
-  simp only at h1 h2 h3 h4 h5 h6 h7 h8 h9 h10 h11 h12
+  obtain ⟨ipc, spc, owner, nc, sim, snap, served, up, il, rc, ub, me⟩ := s
+  obtain ⟨h1, h2, h3, h4, h5, h6, h7, h8, h9, h10, h11, h12, h13, h14⟩ := i
+  simp only at h1 h2 h3 h4 h5 h6 h7 h8 h9 h10 h11 h12 h13 h14
   cases up
   case false => exact ⟨.xStart, by simp [step]⟩
   case true =>
@@ -192,6 +192,7 @@ theorem c19_no_deadlock (tr : List Ev) (s : State) (h : Exec tr s) (hq : s.racy 
       | I =>
         obtain ⟨hc, hl⟩ := h1.mp rfl
         cases ipc <;> simp [critI] at hc
+        · exact ⟨.iSetFlag, by simp [step]⟩
         · exact ⟨.iStepBegin, by simp [step]⟩
         · exact ⟨.iStepEnd, by simp [step]⟩
         · exact ⟨.iUnlock, by simp [step, hl]⟩
@@ -211,21 +212,76 @@ applies to the rest of the execution -/
 theorem c19_start_outside_iteration_is_safe (pre post : List Ev) (s0 s : State)
     (h0 : Exec pre s0) (hq0 : s0.racy = false)
     (hout : (critI s0.ipc = true ∧ s0.ilock = false) → False)
-    (hr : run s0 (.xStart :: post) = some s) : s.racy = false := by
+    (hr : run s0 (.xStart :: post) = some s)
+    (hn1 : ∀ e ∈ post, e ≠ .xStart) (hn2 : ∀ e ∈ post, e ≠ .xStop) : s.racy = false := by
   simp only [run] at hr
   split at hr
   · simp at hr
   · next s1 h1 =>
-    have hu : s1.srvUp = true ∧ s1.racy = false := by
-      obtain ⟨ipc, spc, owner, nc, sim, snap, served, up, il, rc, ub⟩ := s0
+    have hu : s1.racy = false := by
+      obtain ⟨ipc, spc, owner, nc, sim, snap, served, up, il, rc, ub, me⟩ := s0
       simp only [step] at h1
       split at h1
       · simp only [Option.some.injEq] at h1; subst h1
-        refine ⟨rfl, ?_⟩
         simp only at hq0 hout ⊢
         cases ipc <;> cases il <;> simp_all [critI]
       · simp at h1
-    rw [run_racy_up hr hu.1]; exact hu.2
+    rw [run_racy_const hr hn1 hn2]; exact hu
+
+/-- stopping the server at any moment at which the integrator is NOT between its test of `r->server_data` and the last
+dereference that depends on it (i.e. not in `waitNC, wantLock, postLock, postUnlock`, and not inside a locked iteration) is safe:
+`racy` stays false (until the next start/stop), hence no use after free, and every theorem of this file applies -/
+theorem c19_stop_outside_iteration_is_safe (pre post : List Ev) (s0 s : State)
+    (h0 : Exec pre s0) (hq0 : s0.racy = false)
+    (hout : s0.ipc ≠ .waitNC ∧ s0.ipc ≠ .wantLock ∧ s0.ipc ≠ .postLock ∧ s0.ipc ≠ .postUnlock ∧
+            ((critI s0.ipc = true ∧ s0.ilock = true) → False))
+    (hr : run s0 (.xStop :: post) = some s)
+    (hn1 : ∀ e ∈ post, e ≠ .xStart) (hn2 : ∀ e ∈ post, e ≠ .xStop) : s.racy = false ∧ s.memerr = false := by
+  have hrun : run init (pre ++ .xStop :: post) = some s := by
+    rw [run_append, h0]; exact hr
+  simp only [run] at hr
+  split at hr
+  · simp at hr
+  · next s1 h1 =>
+    have hu : s1.racy = false := by
+      obtain ⟨ipc, spc, owner, nc, sim, snap, served, up, il, rc, ub, me⟩ := s0
+      simp only [step] at h1
+      split at h1
+      · simp only [Option.some.injEq] at h1; subst h1
+        simp only at hq0 hout ⊢
+        cases ipc <;> cases il <;> simp_all [critI]
+      · simp at h1
+    have hq : s.racy = false := by rw [run_racy_const hr hn1 hn2]; exact hu
+    exact ⟨hq, (exec_inv hrun hq).noMem⟩
+
+/-- the integrator has tested `r->server_data != NULL` (rebound.c:842) and waits for `need_copy`; the server is stopped -/
+def witnessF21 : List Ev :=
+  [.xStart, .iEnter, .iChkBegin, .iChkEnd true, .iSeeSrv true, .xStop, .iSeeNC0, .iLock, .iSetFlag]
+
+/-- … or it is stopped between `pthread_mutex_unlock` and `mutex_locked_by_integrate = 0` (rebound.c:872-874) -/
+def witnessF21b : List Ev :=
+  [.xStart, .iEnter, .iChkBegin, .iChkEnd true, .iSeeSrv true, .iSeeNC0, .iLock, .iSetFlag, .iStepBegin, .iStepEnd,
+   .iUnlock, .xStop, .iClrFlag]
+
+/-- WHAT IS TRUE OF THE UNCHANGED CODE (finding F21): `reb_simulation_stop_server` frees `server_data` without any
+synchronisation with the integration loop; stopped inside an iteration that has seen the server, the loop reads
+`need_copy`, locks the mutex and writes `mutex_locked_by_integrate` in freed memory -/
+theorem c19_stop_mid_iteration_use_after_free :
+    (∃ s, Exec witnessF21 s ∧ s.memerr = true ∧ s.srvUp = false) ∧
+    (∃ s, Exec witnessF21b s ∧ s.memerr = true ∧ s.srvUp = false) := by
+  have h1 : (run init witnessF21).map (fun s => (s.memerr, s.srvUp)) = some (true, false) := by decide
+  have h2 : (run init witnessF21b).map (fun s => (s.memerr, s.srvUp)) = some (true, false) := by decide
+  constructor
+  · cases hr : run init witnessF21 with
+    | none => simp [hr] at h1
+    | some s =>
+      simp only [hr, Option.map_some, Option.some.injEq, Prod.mk.injEq] at h1
+      exact ⟨s, hr, h1.1, h1.2⟩
+  · cases hr : run init witnessF21b with
+    | none => simp [hr] at h2
+    | some s =>
+      simp only [hr, Option.map_some, Option.some.injEq, Prod.mk.injEq] at h2
+      exact ⟨s, hr, h2.1, h2.2⟩
 
 /-- a step begun before the server existed, the server started during it, a request served at once -/
 def witnessF19 : List Ev :=
@@ -361,8 +417,8 @@ theorem c19_tables_populated :
 
 /-- an execution that reaches `serialise` at a step boundary after one completed step, and
 completes the request -/
-example : (run init [.xStart, .iEnter, .iChkBegin, .iChkEnd true, .iSeeSrv true, .iSeeNC0, .iLock, .iStepBegin, .sReq, .sSetNC,
-    .iStepEnd, .iUnlock, .sLock, .iChkBegin, .sSerBegin]).map (fun s => (s.spc, s.sim, s.snap))
+example : (run init [.xStart, .iEnter, .iChkBegin, .iChkEnd true, .iSeeSrv true, .iSeeNC0, .iLock, .iSetFlag, .iStepBegin, .sReq, .sSetNC,
+    .iStepEnd, .iUnlock, .iClrFlag, .sLock, .iChkBegin, .sSerBegin]).map (fun s => (s.spc, s.sim, s.snap))
     = some (.serialising, boundary 1 1, some (boundary 1 1)) := by decide
 
 /-- the integrator spins on `need_copy` and blocks on the mutex while the server serialises -/
